@@ -51,4 +51,5 @@ class StandardDeviation(Indicator):
         self.managed_indicators["STDEV_data"].set_reading({"mean": new_mean, "variance": variance})
 
         if in_calc_range:
-            return sqrt(variance)
+            # the running update can leave a tiny negative float where the variance is 0
+            return sqrt(max(variance, 0.0))
